@@ -205,6 +205,11 @@ func (s *Server) newPartition(protoPartition *proto.Partition, recovered bool, c
 	if err != nil {
 		return nil, errors.Wrap(err, "failed to create commit log")
 	}
+	// Re-apply the readonly flag carried by the protobuf, e.g. when the
+	// partition is restored from a snapshot or recreated on resume.
+	if protoPartition.Readonly {
+		log.SetReadonly(true)
+	}
 
 	replicas := make(map[string]struct{}, len(protoPartition.Replicas))
 	for _, replica := range protoPartition.Replicas {
